@@ -97,6 +97,10 @@ func (ex *Exec) initGlobal(v *types.Var) *Obj {
 					o.Init = append([]Value{}, o.Cells...)
 					o.Global, o.Pre = true, true
 					ex.globals[v] = o
+					if ex.globalsRead == nil {
+						ex.globalsRead = map[string]bool{}
+					}
+					ex.globalsRead[qualVar(v)] = true
 					if ex.entry != nil {
 						ex.entry.cells[o] = append([]Value{}, o.Cells...)
 					}
